@@ -220,6 +220,22 @@ def run(ctx):
                 fs = id_sets(c.value)
                 if fs and "a" in fs[0]:
                     ctx.ob("C15.R11", R + ":tokenize", "covers the identifiers of %s (%s)" % (rel, c.value), fs[0] <= rd[0] and fs[1] <= rd[1], construct="covers:" + rel, detail="missing first %s rest %s" % ("".join(sorted(fs[0] - rd[0])), "".join(sorted(fs[1] - rd[1]))))
+    # ---- R12 operator decides ------------------------------------------------
+    ctx.rule("C15.R12", "`ty name = a <op> b`: a symbolic operator token after the first identifier selects the binary operation whatever that identifier is called (values may be named load, cast, call, phi, alloc ...)", floor=3)
+    site = R + ":Reader.parse_assignment"
+    bin_if = [n for n in ast.walk(pa) if isinstance(n, ast.If) and any(isinstance(c, ast.Call) and norm(c.func) == "ir.Binop" for b in n.body for c in ast.walk(b))]
+    bin_if = [n for n in bin_if if not any(m is not n and any(x is m for x in ast.walk(n)) for m in bin_if)]   # innermost
+    ctx.need(len(bin_if) == 1, "parse_assignment: the branch that builds ir.Binop was not found")
+    t = bin_if[0].test
+    disj = t.values if isinstance(t, ast.BoolOp) and isinstance(t.op, ast.Or) else [t]
+    bare = [d for d in disj if " ".join(norm(d).split()) == "self.peek in ir.Binop.ops"]
+    ctx.ob("C15.R12", site, "`self.peek in ir.Binop.ops` alone (not and-ed with a test of the identifier) selects the binop branch", len(bare) == 1, construct="symbolic-op-decides", node=t, detail=" ".join(norm(t).split())[:160])
+    excl = [d for d in disj if d not in bare]
+    ok = all(isinstance(d, ast.BoolOp) and isinstance(d.op, ast.And) and any("self.token[1] in ir.Binop.ops" in norm(v) for v in d.values) for d in excl)
+    ctx.ob("C15.R12", site, "identifier exclusions (load / cast / call) restrict only the word-operator form `a rol b`", ok, construct="exclusions-only-for-word-ops")
+    parent = getattr(bin_if[0], "_parent", None)
+    first = isinstance(parent, ast.If) and parent.body and parent.body[-1] is bin_if[0] and norm(parent.test) == "self.peek == 'ID'"
+    ctx.ob("C15.R12", site, "the operator test comes before the keyword branches (phi, alloc, load, cast, call, literal)", bool(first) and bool(bin_if[0].orelse), construct="binop-tested-first")
     # ---- R5 order ----------------------------------------------------------
     for cname in ("Store", "CJump", "Binop", "Load", "Cast", "Alloc", "Unop", "Jump", "Return"):
         cls = ctx.cls(IR, cname)
